@@ -64,6 +64,309 @@ theorem dcOneOne_disjoint (i j k l : Nat) (coef : GQ) (prior : Op)
   simp only [phiF, hcomm]
   apply GQ.ext <;> simp <;> grind
 
+/-! ### all index patterns of the one-body / one-body helper -/
+
+theorem actFTerm_number (i : Nat) : actFTerm [(i, 1), (i, 0)] = projFull i := by
+  rw [actFTerm_two]; rfl
+
+/-- what a hopping term `p^ q` (`p ≠ q`) demands of the state and leaves behind -/
+theorem hop_bits (p q : Nat) (hpq : p ≠ q) {s κ w : Nat} (h : actFTerm [(p, 1), (q, 0)] s = some (κ, w)) :
+    s.testBit p = false ∧ w.testBit p = true ∧ s.testBit q = true ∧ w.testBit q = false := by
+  have b1 := actFTerm_bit _ h p
+  have b2 := actFTerm_bit _ h q
+  have hqp : ¬ q = p := fun e => hpq e.symm
+  simp only [net, hpq, hqp, if_true, if_false] at b1 b2
+  have r1 := bitI_range s p
+  have r2 := bitI_range w p
+  have r3 := bitI_range s q
+  have r4 := bitI_range w q
+  simp only [bitI] at *
+  refine ⟨?_, ?_, ?_, ?_⟩
+  · cases hb : s.testBit p <;> simp [hb] at b1 r1 ⊢; split at b1 <;> omega
+  · cases hb : w.testBit p <;> simp [hb] at b1 r2 ⊢; split at b1 <;> omega
+  · cases hb : s.testBit q <;> simp [hb] at b2 r3 ⊢; split at b2 <;> omega
+  · cases hb : w.testBit q <;> simp [hb] at b2 r4 ⊢; split at b2 <;> omega
+
+theorem projFull_comp_id (p : Nat) (X : FMap) (hX : Red X) (h : ∀ s κ w, X s = some (κ, w) → w.testBit p = true) :
+    fcomp (projFull p) X = X := by
+  funext s
+  simp only [fcomp]
+  cases hs : X s with
+  | none => rfl
+  | some r =>
+    obtain ⟨κ, w⟩ := r
+    have := hX s κ w hs
+    simp only [projFull_apply, h s κ w hs, if_true, Option.some.injEq, Prod.mk.injEq, and_true]
+    omega
+
+theorem projFull_comp_zero (p : Nat) (X : FMap) (h : ∀ s κ w, X s = some (κ, w) → w.testBit p = false) :
+    fcomp (projFull p) X = fzero := by
+  funext s
+  simp only [fcomp, fzero]
+  cases hs : X s with
+  | none => rfl
+  | some r =>
+    obtain ⟨κ, w⟩ := r
+    simp [projFull_apply, h s κ w hs]
+
+theorem comp_projFull_id (p : Nat) (X : FMap) (hX : Red X) (h : ∀ s, s.testBit p = false → X s = none) :
+    fcomp X (projFull p) = X := by
+  funext s
+  simp only [fcomp, projFull_apply]
+  cases hb : s.testBit p
+  · simp [h s hb]
+  · simp only [if_true]
+    cases hs : X s with
+    | none => rfl
+    | some r =>
+      obtain ⟨κ, w⟩ := r
+      have := hX s κ w hs
+      simp only [Option.some.injEq, Prod.mk.injEq, and_true]
+      omega
+
+theorem comp_projFull_zero (p : Nat) (X : FMap) (h : ∀ s, s.testBit p = true → X s = none) :
+    fcomp X (projFull p) = fzero := by
+  funext s
+  simp only [fcomp, projFull_apply, fzero]
+  cases hb : s.testBit p
+  · simp
+  · simp [h s hb]
+
+theorem hop_none_of_bit (p q : Nat) (hpq : p ≠ q) (s : Nat) :
+    (s.testBit p = true → actFTerm [(p, 1), (q, 0)] s = none) ∧
+    (s.testBit q = false → actFTerm [(p, 1), (q, 0)] s = none) := by
+  constructor <;> intro hb <;>
+    · cases hs : actFTerm [(p, 1), (q, 0)] s with
+      | none => rfl
+      | some r =>
+        obtain ⟨κ, w⟩ := r
+        have := hop_bits p q hpq hs
+        simp_all
+
+theorem gq_sub_zero (x : GQ) : x + -(0 : GQ) = x := by apply GQ.ext <;> simp <;> grind
+theorem gq_zero_sub (x : GQ) : (0 : GQ) + -x = -x := by apply GQ.ext <;> simp <;> grind
+
+/-- `[n_i, i^ l] = i^ l` -/
+theorem pair_number_hop (i l s u : Nat) (hil : i ≠ l) :
+    phiF s u ([(i, 1), (i, 0)] ++ [(i, 1), (l, 0)]) + -(phiF s u ([(i, 1), (l, 0)] ++ [(i, 1), (i, 0)])) =
+      phiF s u [(i, 1), (l, 0)] := by
+  simp only [phiF]
+  rw [actFTerm_append, actFTerm_append, actFTerm_number,
+    projFull_comp_id i _ (red_actFTerm _) (fun s κ w h => (hop_bits i l hil h).2.1),
+    comp_projFull_zero i _ (fun s hb => (hop_none_of_bit i l hil s).1 hb)]
+  exact gq_sub_zero _
+
+/-- `[n_i, l^ i] = -(l^ i)` -/
+theorem pair_number_hop' (i l s u : Nat) (hil : i ≠ l) :
+    phiF s u ([(i, 1), (i, 0)] ++ [(l, 1), (i, 0)]) + -(phiF s u ([(l, 1), (i, 0)] ++ [(i, 1), (i, 0)])) =
+      -(phiF s u [(l, 1), (i, 0)]) := by
+  simp only [phiF]
+  rw [actFTerm_append, actFTerm_append, actFTerm_number,
+    projFull_comp_zero i _ (fun s κ w h => (hop_bits l i (Ne.symm hil) h).2.2.2),
+    comp_projFull_id i _ (red_actFTerm _) (fun s hb => (hop_none_of_bit l i (Ne.symm hil) s).2 hb)]
+  exact gq_zero_sub _
+
+/-- `[i^ j, j^ i] = n_i - n_j` -/
+theorem pair_double (i j s u : Nat) (hij : i ≠ j) :
+    phiF s u ([(i, 1), (j, 0)] ++ [(j, 1), (i, 0)]) + -(phiF s u ([(j, 1), (i, 0)] ++ [(i, 1), (j, 0)])) =
+      phiF s u [(i, 1), (i, 0)] + -(phiF s u [(j, 1), (j, 0)]) := by
+  have hji : j ≠ i := Ne.symm hij
+  -- i^ j j^ i = (i^ i)(j j^),   j^ i i^ j = (j^ j)(i i^)
+  have e1 : actFTerm ([(i, 1), (j, 0)] ++ [(j, 1), (i, 0)]) = fcomp (projFull i) (projEmpty j) := by
+    show actFTerm [(i, 1), (j, 0), (j, 1), (i, 0)] = _
+    rw [actFTerm_four]
+    -- move a_i to the left past a_j† and a_j
+    rw [ffac_swap j 1 i 0 hji, fneg_fcomp_right, fneg_fcomp_right, swap3 (j, 0) (i, 0) _ hji, fneg_fcomp_right,
+      fneg_fneg, projFull, projEmpty, ← fcomp_assoc]
+    exact fneg_even 2 _ (red_fcomp _ _) rfl
+  have e2 : actFTerm ([(j, 1), (i, 0)] ++ [(i, 1), (j, 0)]) = fcomp (projFull j) (projEmpty i) := by
+    show actFTerm [(j, 1), (i, 0), (i, 1), (j, 0)] = _
+    rw [actFTerm_four]
+    rw [ffac_swap i 1 j 0 hij, fneg_fcomp_right, fneg_fcomp_right, swap3 (i, 0) (j, 0) _ hij, fneg_fcomp_right,
+      fneg_fneg, projFull, projEmpty, ← fcomp_assoc]
+    exact fneg_even 2 _ (red_fcomp _ _) rfl
+  simp only [phiF, e1, e2, actFTerm_number, ampG, fcomp, projFull_apply, projEmpty_apply]
+  have h0 : GQ.sgn 0 = 1 := rfl
+  by_cases hu : s = u
+  · subst hu
+    cases hi : s.testBit i <;> cases hj : s.testBit j <;> simp [hi, hj, h0] <;> apply GQ.ext <;> simp <;> grind
+  · cases hi : s.testBit i <;> cases hj : s.testBit j <;> simp [hi, hj, hu] <;> apply GQ.ext <;> simp <;> grind
+
+/-- `[i^ l, n_l] = i^ l` -/
+theorem pair_hop_number (i l s u : Nat) (hil : i ≠ l) :
+    phiF s u ([(i, 1), (l, 0)] ++ [(l, 1), (l, 0)]) + -(phiF s u ([(l, 1), (l, 0)] ++ [(i, 1), (l, 0)])) =
+      phiF s u [(i, 1), (l, 0)] := by
+  simp only [phiF]
+  rw [actFTerm_append, actFTerm_append, actFTerm_number,
+    comp_projFull_id l _ (red_actFTerm _) (fun s hb => (hop_none_of_bit i l hil s).2 hb),
+    projFull_comp_zero l _ (fun s κ w h => (hop_bits i l hil h).2.2.2)]
+  exact gq_sub_zero _
+
+/-- `[i^ j, n_i] = -(i^ j)` -/
+theorem pair_hop_number' (i j s u : Nat) (hij : i ≠ j) :
+    phiF s u ([(i, 1), (j, 0)] ++ [(i, 1), (i, 0)]) + -(phiF s u ([(i, 1), (i, 0)] ++ [(i, 1), (j, 0)])) =
+      -(phiF s u [(i, 1), (j, 0)]) := by
+  simp only [phiF]
+  rw [actFTerm_append, actFTerm_append, actFTerm_number,
+    comp_projFull_zero i _ (fun s hb => (hop_none_of_bit i j hij s).1 hb),
+    projFull_comp_id i _ (red_actFTerm _) (fun s κ w h => (hop_bits i j hij h).2.1)]
+  exact gq_zero_sub _
+
+theorem pairComm_zero_of_net (s u : Nat) (a b : Term) (coef : GQ) (m : Nat)
+    (h : 2 ≤ net m (a ++ b) ∨ net m (a ++ b) ≤ -2) : pairComm s u a b coef = 0 := by
+  have h' : 2 ≤ net m (b ++ a) ∨ net m (b ++ a) ≤ -2 := by rw [net_append] at h ⊢; omega
+  rw [pairComm, phiF_zero_of_net s u _ m h, phiF_zero_of_net s u _ m h']
+  apply GQ.ext <;> simp <;> grind
+
+/-- **`_commutator_one_body_with_one_body`, every index pattern**: for one-body terms `a = i^ j`,
+`b = k^ l` (any coincidences among the four modes, `a ≠ b`) the helper adds exactly `coef · [a, b]` -/
+theorem dcOneOne_sound (i j k l : Nat) (coef : GQ) (prior : Op) (hne : ¬ (i = k ∧ j = l)) (s u : Nat) :
+    den (phiF s u) (dcOneOne [(i, 1), (j, 0)] [(k, 1), (l, 0)] coef prior) =
+      den (phiF s u) prior + pairComm s u [(i, 1), (j, 0)] [(k, 1), (l, 0)] coef := by
+  by_cases hjk : j = k
+  · subst hjk
+    by_cases hil : i = l
+    · -- double pairing i^ j, j^ i
+      subst hil
+      have hij : i ≠ j := fun e => hne ⟨e, e.symm⟩
+      have hc : dcOneOne [(i, 1), (j, 0)] [(j, 1), (i, 0)] coef prior =
+          bump (bump prior [(i, 1), (i, 0)] coef) [(j, 1), (j, 0)] (-coef) := by
+        simp [dcOneOne, fIdx]
+      rw [hc, den_bump, den_bump, pairComm, pair_double i j s u hij]
+      apply GQ.ext <;> simp <;> grind
+    · -- chain a[1] = b[0]
+      have hc : dcOneOne [(i, 1), (j, 0)] [(j, 1), (l, 0)] coef prior = bump prior [(i, 1), (l, 0)] coef := by
+        simp [dcOneOne, fIdx, hil]
+      rw [hc, den_bump, pairComm]
+      congr 2
+      by_cases hij : i = j
+      · subst hij; exact (pair_number_hop i l s u hil).symm
+      · by_cases hlj : l = j
+        · subst hlj; exact (pair_hop_number i l s u hij).symm
+        · exact (pair_ik_kj i j l s u hij hlj hil).symm
+  · by_cases hil : i = l
+    · -- chain a[0] = b[1]
+      subst hil
+      have hkj : ¬ k = j := fun e => hjk e.symm
+      have hc : dcOneOne [(i, 1), (j, 0)] [(k, 1), (i, 0)] coef prior = bump prior [(k, 1), (j, 0)] (-coef) := by
+        simp [dcOneOne, fIdx, hjk, hkj]
+      rw [hc, den_bump, pairComm]
+      have key : phiF s u ([(i, 1), (j, 0)] ++ [(k, 1), (i, 0)]) + -(phiF s u ([(k, 1), (i, 0)] ++ [(i, 1), (j, 0)])) =
+          -(phiF s u [(k, 1), (j, 0)]) := by
+        by_cases hij : i = j
+        · subst hij; exact pair_number_hop' i k s u (fun e => hjk e)
+        · by_cases hki : k = i
+          · subst hki; exact pair_hop_number' k j s u hij
+          · have := pair_ik_kj k i j s u hki (fun e => hij e.symm) hkj
+            rw [← this]
+            apply GQ.ext <;> simp <;> grind
+      rw [key]
+      apply GQ.ext <;> simp <;> grind
+    · -- no pairing: nothing is added, and the terms commute
+      have hc : dcOneOne [(i, 1), (j, 0)] [(k, 1), (l, 0)] coef prior = prior := by
+        simp [dcOneOne, fIdx, hil, hjk]
+      rw [hc]
+      have hz : pairComm s u [(i, 1), (j, 0)] [(k, 1), (l, 0)] coef = 0 := by
+        by_cases hik : i = k
+        · subst hik
+          have hjl : ¬ j = l := fun e => hne ⟨rfl, e⟩
+          apply pairComm_zero_of_net _ _ _ _ _ i
+          left
+          have h1 : ¬ j = i := fun e => hjk e
+          have h2 : ¬ l = i := fun e => hil e.symm
+          simp [net, h1, h2]
+        · by_cases hjl : j = l
+          · subst hjl
+            apply pairComm_zero_of_net _ _ _ _ _ j
+            right
+            have h1 : ¬ i = j := fun e => hil e
+            have h2 : ¬ k = j := fun e => hjk e.symm
+            simp [net, h1, h2]
+          · have := dcOneOne_disjoint i j k l coef prior hik hil hjk hjl s u
+            rw [hc] at this
+            have h0 : den (phiF s u) prior + pairComm s u [(i, 1), (j, 0)] [(k, 1), (l, 0)] coef =
+                den (phiF s u) prior + 0 := by rw [← this, add_zero']
+            exact add_right_cancel' _ _ (den (phiF s u) prior) (by
+              rw [add_comm' _ (den (phiF s u) prior), h0, add_comm'])
+      rw [hz, add_zero']
+
+/-! ### the main loop on one-body operators -/
+
+/-- a one-body term `i^ j` -/
+def OneBody (t : Term) : Prop := ∃ i j, t = [(i, 1), (j, 0)]
+
+/-- `Σ_{b ∈ B} coef_a coef_b ⟨u| a b - b a |s⟩` -/
+def commRow (s u : Nat) (a : Term) (ca : GQ) (B : Op) (init : GQ) : GQ :=
+  B.foldl (fun acc (e : Term × GQ) => acc + pairComm s u a e.1 (ca * e.2)) init
+
+theorem pairComm_self (s u : Nat) (a : Term) (c : GQ) : pairComm s u a a c = 0 := by
+  unfold pairComm; apply GQ.ext <;> simp <;> grind
+
+/-- the body of the double loop of the diagonal-Coulomb commutator -/
+def dcStep (tol : Rat) (ta : Term) (ca : GQ) (acc : Op) (e : Term × GQ) : Op :=
+  let coef := ca * e.2
+  if ta == e.1 || ta.isEmpty || e.1.isEmpty then acc
+  else if ta.length == 4 && e.1.length == 4 && fIdx ta 0 == fIdx ta 2 && fIdx ta 1 == fIdx ta 3 then
+    dcTwoTwo ta e.1 coef acc
+  else if (e.1.length == 4 && ta.length == 2) || (ta.length == 4 && e.1.length == 2) then
+    dcOneTwo ta e.1 coef acc
+  else if ta.length == 2 && e.1.length == 2 then
+    dcOneOne ta e.1 coef acc
+  else
+    let additional : Op := Dict.set (Dict.set [] (ta ++ e.1) coef) (e.1 ++ ta) (-coef)
+    iadd tol acc (normalOrdered tol additional)
+
+theorem dcCommutator_eq (tol : Rat) (A B prior : Op) :
+    dcCommutator tol A B prior = A.foldl (fun acc (ea : Term × GQ) => B.foldl (dcStep tol ea.1 ea.2) acc) prior := rfl
+
+theorem dcStep_oneBody (tol : Rat) (i j k l : Nat) (ca cb : GQ) (acc : Op) :
+    dcStep tol [(i, 1), (j, 0)] ca acc ([(k, 1), (l, 0)], cb) =
+      if i = k ∧ j = l then acc else dcOneOne [(i, 1), (j, 0)] [(k, 1), (l, 0)] (ca * cb) acc := by
+  by_cases hsame : i = k ∧ j = l
+  · obtain ⟨rfl, rfl⟩ := hsame
+    simp [dcStep]
+  · have hneq : ([(i, 1), (j, 0)] == [(k, 1), (l, 0)]) = false := by
+      simp only [beq_eq_false_iff_ne, ne_eq, List.cons.injEq, Prod.mk.injEq, and_true, not_and]
+      intro h1 h2; exact hsame ⟨h1, h2⟩
+    simp [dcStep, hneq, hsame]
+
+theorem dcInner_oneBody (tol : Rat) (s u : Nat) (ta : Term) (ca : GQ) (ha : OneBody ta) (B : Op)
+    (hB : ∀ e ∈ B, OneBody e.1) : ∀ (acc : Op),
+    den (phiF s u) (B.foldl (dcStep tol ta ca) acc) = commRow s u ta ca B (den (phiF s u) acc) := by
+  obtain ⟨i, j, rfl⟩ := ha
+  induction B with
+  | nil => intro acc; rfl
+  | cons e B ih =>
+    intro acc
+    obtain ⟨k, l, hk⟩ := hB e (by simp)
+    obtain ⟨tb, cb⟩ := e
+    simp only at hk
+    subst hk
+    simp only [List.foldl_cons, commRow]
+    have ihB := ih (fun e' he' => hB e' (by simp [he']))
+    simp only [commRow] at ihB
+    rw [ihB, dcStep_oneBody]
+    by_cases hsame : i = k ∧ j = l
+    · obtain ⟨rfl, rfl⟩ := hsame
+      simp only [and_self, if_true]
+      rw [pairComm_self, add_zero']
+    · simp only [hsame, if_false]
+      rw [dcOneOne_sound i j k l _ acc hsame s u]
+
+/-- **the diagonal-Coulomb commutator on one-body operators**: if every term of `A` and `B` is a
+one-body term `i^ j`, every matrix element of the result is that of `prior` plus
+`Σ_{a ∈ A} Σ_{b ∈ B} c_a c_b ⟨u| a b - b a |s⟩` -/
+theorem dcCommutator_oneBody (tol : Rat) (s u : Nat) (A B : Op) (hA : ∀ e ∈ A, OneBody e.1) (hB : ∀ e ∈ B, OneBody e.1) :
+    ∀ (prior : Op), den (phiF s u) (dcCommutator tol A B prior) =
+      A.foldl (fun acc (e : Term × GQ) => commRow s u e.1 e.2 B acc) (den (phiF s u) prior) := by
+  intro prior
+  rw [dcCommutator_eq]
+  induction A generalizing prior with
+  | nil => rfl
+  | cons e A ih =>
+    simp only [List.foldl_cons]
+    rw [ih (fun e' he' => hA e' (by simp [he'])), dcInner_oneBody tol s u e.1 e.2 (hA e (by simp)) B hB prior]
+
 end C07F
 end Proofs
 end OFV
